@@ -19,6 +19,8 @@ CHECKS = {
     'C16': ('Gate', 'TLC enumerates ~9.8k package descriptors (15 factory-kind subsets x 8 dependency shapes x 49 rule clauses at every applicable position) and checks the transcribed _walk/_verify traversal against Accept(d) = no violation; every descriptor (stratified sample in quick) is materialised on disk and judged by the real tools.compliant._verify (and the CLI for a sample); accepted packages must pass dag.Construct, schedule.build, organize, next_job_batch; TLC validates verdict = Accept(d) on the records', '5.C16'),
     'C19': ('FrontEnd', 'TLC enumerates 18k (quick) / 400k (thorough) request paths over a tree with two roots, outside files and in/out symlinks, checks the transcribed _static against the declarative jail, and 9.7k endpoint x method x certificate x hook situations read from the real routing table; each is executed on the real fe._static, StaticContent.render_GET, a real twisted Site, DynamicContent.render with recording handlers; TLC validates which marker bytes came back / whether the handler ran', '5.C19'),
     'C20': ('Moment', 'TLC checks the transcribed _delay against Occ(spec) (Computable, Lands, NotFurther) on 126 specifications x 4384 instants of a 3-year calendar, and the firing model MomentFire (FireTargets, BootFires, BootOnce, Armed, Recurs); the real _delay under an injected clock for every/sampled (spec, instant) pair and the real defer/periodics/complete with the virtual reactor clock for every transition of the firing model are validated by TLC; the fires-once defect of defer/complete is a recorded known finding', '5.C20'),
+    'C15': ('Version', 'TLC checks the transcribed comparison operators / newer() against the lexicographic order on all 729 version pairs, and the transcribed _diff/build against the declarative Scheduled(a) over engines x persisted version lists x bump choices at the three levels; the real operators on 8 real Version subclasses for every pair and the real version.current + schedule.build (+ db.versions() on a real shelve DB in thorough) for every enumerated case are validated by TLC', '5.C15'),
+    'C17': ('Search', 'TLC checks Denote(Scrub(e)) = Denote(e) on all 65,641 run-id expressions and the transcribed shelve find/facet against the declarative Match/FindOK/Pages/FacetOK over small databases x constraint combinations x pages; the real _scrub (3 input forms) and the real shelve search + fe.api wrappers on real shelve files are executed for the TLC-generated cases and validated by TLC', '5.C17'),
 }
 
 NOT_YET = {}
@@ -60,6 +62,8 @@ def main():
             {'name': 'Frame', 'path': 'spec/Frame.tla', 'serves_properties': ['C14'], 'kind_free_text': 'TLA+ spec of length-prefixed framing and the legacy handshake wrapper; Frame_MC, Frame_Gen, Frame_Cuts, Frame_Trace; harness/frame_h.py'},
             {'name': 'Gate', 'path': 'spec/Gate.tla', 'serves_properties': ['C16'], 'kind_free_text': 'TLA+ spec of the compliance gate as a decision procedure over package descriptors; harness/gate_h.py materialises packages on disk'},
             {'name': 'FrontEnd', 'path': 'spec/FrontEnd.tla', 'serves_properties': ['C19'], 'kind_free_text': 'TLA+ spec of the static file jail and the endpoint access table; harness/frontend_h.py'},
+            {'name': 'Version', 'path': 'spec/Version.tla', 'serves_properties': ['C15'], 'kind_free_text': 'TLA+ version order + version-diff scheduling at (re)load; harness/version_h.py'},
+            {'name': 'Search', 'path': 'spec/Search.tla', 'serves_properties': ['C17'], 'kind_free_text': 'TLA+ run-id expression normaliser + find/facet/paging reference and transcription; harness/search_h.py on real shelve files'},
             {'name': 'Moment', 'path': 'spec/Moment.tla', 'serves_properties': ['C20'], 'kind_free_text': 'TLA+ calendar + time-to-event (Moment) and timer firing (MomentFire); harness/moment_h.py'},
             {'name': 'Lifecycle', 'path': 'spec/Lifecycle.tla', 'serves_properties': ['C10', 'C12'], 'kind_free_text': 'TLA+ spec of the pipeline FSM, submit crossroads and pollers (safety + liveness); Lifecycle_Gen, Lifecycle_Trace; harness/life_h.py (gated poller threads)'},
         ],
